@@ -376,10 +376,13 @@ Definition units22 : list pstate := [st1 [mkq 1 2; mkq 1 1] [0; 0]; st1 [mkq 1 1
 (* scalar weight + coupling template: the template is ignored *)
 Definition N_scalar_coupling : popnet :=
   {| pops := two_pops 2 2; conns := [mkconn 0 0 1 0 (WScal (mkq 2 1)) cpl_diff 0 0] |}.
-Lemma refuted_scalar_coupling :
+Lemma refuted_scalar_coupling : fixed_F3 = false ->
   wf_net N_scalar_coupling = true /\ g_scalar_plain N_scalar_coupling = false /\
   pop_run unit_poly N_scalar_coupling units22 (mkq 1 4) 2 <> Some (exp_run 0 unit_poly N_scalar_coupling units22 (mkq 1 4) 2).
-Proof. repeat split; try (vm_compute; reflexivity). apply otraj_neq. vm_compute. reflexivity. Qed.
+Proof.
+  intros Hflag. vm_compute in Hflag. try discriminate Hflag.
+  repeat split; try (vm_compute; reflexivity). apply otraj_neq. vm_compute. reflexivity.
+Qed.
 
 (* a scalar weight within 1e-8 of 1 is replaced by 1 *)
 Definition N_near_one : popnet :=
@@ -392,10 +395,13 @@ Proof. repeat split; try (vm_compute; reflexivity). apply otraj_neq. vm_compute.
 (* post-synaptic variable named like the source variable, two populations of equal size: the source is lost *)
 Definition N_post_name : popnet :=
   {| pops := two_pops 2 2; conns := [mkconn 0 0 1 0 (WMat W22) cpl_diff 0 0] |}.
-Lemma refuted_post_name :
+Lemma refuted_post_name : fixed_F2 = false ->
   wf_net N_post_name = true /\ g_post_name N_post_name = false /\
   pop_run unit_poly N_post_name units22 (mkq 1 4) 2 <> Some (exp_run 0 unit_poly N_post_name units22 (mkq 1 4) 2).
-Proof. repeat split; try (vm_compute; reflexivity). apply otraj_neq. vm_compute. reflexivity. Qed.
+Proof.
+  intros Hflag. vm_compute in Hflag. try discriminate Hflag.
+  repeat split; try (vm_compute; reflexivity). apply otraj_neq. vm_compute. reflexivity.
+Qed.
 
 (* loud classes: the population circuit raises, the explicit network has a value *)
 Definition N_dup_sources : popnet :=
